@@ -58,7 +58,11 @@ CLAIMED["C10"] = dict(
          "inert after completion on both engines. Stating the spec exposed a genuine defect (nested parallel regions), repaired by a fix: commit. "
          "TIE T: _is_state_done is re-translated from the current source on every run (coq/Gen/GenGeom.v: recursion on explicit fuel, the region "
          "loop with its early returns as a short-cutting fold) and proved equal to the model's is_done for every fuel "
-         "(C10_doneness_is_the_source), so the spec theorem is a theorem about the source function (C10_source_doneness_spec). "
+         "(C10_doneness_is_the_source), so the spec theorem is a theorem about the source function (C10_source_doneness_spec). The DECISION of "
+         "_check_and_fire_on_done - which ancestor's onDone fires, or that the machine completes - is re-translated from BOTH engines' copies "
+         "(effects replaced by what they decide; the translator refuses unless the effect block queues the done event of that very ancestor "
+         "with the final state's output) and equals the decision the model's fire_on_done acts on (C10_fire_decision_is_the_source_async / "
+         "_sync, C10_fire_acts_on_the_decision). "
          "Tied to the code by K-macro on completion machines (all region completion orders, un-complete / re-complete, sends after completion).",
     technique="Coq proof (fuel induction against an inductive spec) over source-translated Gallina (tie T) + vm_compute correspondence",
     design_ref="DESIGN.md section 5 C10")
@@ -189,7 +193,13 @@ CLAIMED["C01"] = dict(
          "the way _execute_transition does - C01_transition_is_the_source: one external transition run with the SOURCE's domain / exit set / entry "
          "path / history expansion / combined path equals the model's exec_external out of every legal configuration, so legality preservation "
          "holds of the transition as the source computes it (C01_source_transition_preserves_legality, "
-         "C01_source_history_transition_preserves_legality, C01_source_root_transition_restarts). "
+         "C01_source_history_transition_preserves_legality, C01_source_root_transition_restarts). The PLAN itself (domain, exit order, entry path, "
+         "combined path) is sliced out of the effects of _execute_transition (asyncio engine) and SyncInterpreter._process_single_transition on "
+         "every run; both engines plan alike (C01_engines_plan_alike) and exec_external_src executes that plan. One whole EVENT processed with "
+         "the source's selection and plans equals the model's process_event on every state satisfying the run invariant, when no guard "
+         "implementation is missing (C01_event_step_is_the_source, C01_source_event_preserves_legality). Default descent - what _enter_states "
+         "enters below one state, in both engines' copies - is translated as a decision and proved to be the one the model's enter_one acts "
+         "on (C01_descent_is_the_source_async / _sync, C01_entry_acts_on_the_decision). "
          "Built from C01_initial_configuration_legal (induction over the default descent), C01_transition_effect (closed formula: configuration "
          "after a transition = before minus the exit list plus the entered set), C01_transition_preserves_legality (a replacement lemma over the "
          "state tree, for compound and parallel domains) and C01_event_preserves_legality (also when a transition aborts: rollback); "
@@ -215,7 +225,11 @@ CLAIMED["C03"] = dict(
          "(the entered states form a tree below the domain whose entered list is duplicate-free), under the history-store invariant every run "
          "maintains (former finding F21 there is repaired in /repo). TIE T (geometry): the state-tree functions the engine decides transitions with - _find_transition_domain, _compute_states_to_exit, _get_path_to_state, _get_ancestors, _resolve_history_target, _record_history, _is_state_done (and _is_descendant) - are RE-TRANSLATED from the current source on every run by harness/py2coq_tree.py (a fail-closed translator for tree-walking Python: while-loops over parent chains become Fixpoints on explicit fuel, sets become duplicate-free lists, early returns become short-cutting folds) into coq/Gen/GenGeom.v and proved EQUAL to the model functions the theorems are stated over (Proofs/GeomBridge.v); "
          "here: C03_domain_is_the_source, C03_exit_set_is_the_source, C03_entry_path_is_the_source, C03_transition_is_the_source (the whole "
-         "transition with the source's geometry = the model's, out of a legal configuration). Partial: the theorems are per transition (every transition of every run, by the "
+         "transition with the source's geometry = the model's, out of a legal configuration). ORDER OF EFFECTS: the effect skeletons of "
+         "_exit_states and _enter_states are extracted from both engines' copies on every run (for _enter_states every path through the loop body "
+         "must agree with one total order of add / entry actions / schedule / done check / descent) and, interpreted over the model's effect "
+         "primitives, are exit_states and enter_one (C03_exit_order_is_the_source_async / _sync, C03_entry_order_is_the_source_async / _sync). "
+         "Partial: the theorems are per transition (every transition of every run, by the "
          "C01 run invariant); timer / service non-interference of sibling regions follows only for what is cancelled.",
     technique="Coq proof (log-segment invariants through entry / exit / actions; sortedness; entered-set characterisation over the state tree) + source-translated transition geometry (tie T) + vm_compute correspondence (K-macro) + monitor",
     design_ref="DESIGN.md section 5 C03")
